@@ -1,9 +1,123 @@
-(* C09 - Upstream connection pools.  Only statements here; proofs by `exact`. *)
-From Coq Require Import List ZArith Bool.
-From MV Require Import Model.Pool Gen.PoolSrc.
-Import ListNotations.
+(* C09 - Upstream connection pools: exclusive leases, no leaks, no dirty reuse.
+   Only statements here; proofs by `exact`.
 
-(* the translator recognised the four source spots (connpool.go NewStream/OnResetStream/OnDestroyStream,
-   connpool_pingpong.go OnResetStream/OnDestroyStream/GetActiveClient) *)
+   Model/Pool.v is an executable model of pkg/stream/http/connpool.go (kind Http1) and
+   pkg/stream/xprotocol/connpool_pingpong.go (kind PingPong).  `run k ops init` is the pool after the history
+   `ops` of operations {NewStream (dial ok / refused / timed out; request written or not), Send, Response (with or
+   without "Connection: close"), LocalReset, RemoteReset, ConnClose with every close event kind, GoAway, Shutdown,
+   ExtReq (another holder of the cluster's Requests resource)}; every theorem below quantifies over ALL
+   configurations k (pool kind, max_connections, max_requests) and ALL histories ops.
+
+   `pool_src_switches` is read from the Go source on every run (Gen/PoolSrc.v).  The theorems are stated for the
+   code that is in the tree: if one of the repaired spots regresses, `exact` below no longer type-checks. *)
+From Coq Require Import List ZArith Bool.
+From MV Require Import Model.Pool Gen.PoolSrc Proofs.Pool.
+Import ListNotations.
+Open Scope Z_scope.
+
+(* the translator recognised the source spots *)
 Theorem c09_translator_ok : PoolSrc_translator_ok = true.
 Proof. exact (eq_refl true). Qed.
+
+(* Exclusive lease.  After every history: no connection carries two in-flight requests; every connection the pool
+   ever created is in exactly one of the states {closed, leased to exactly one stream, idle in the pool}. *)
+Theorem c09_exclusive_lease : forall k ops, k_sw k = pool_src_switches -> let p := run k ops init in
+  (forall c, (inflight p c <= 1)%nat) /\
+  (forall c, (c < nclients p)%nat -> is_closed_state p c \/ is_leased_state p c \/ is_idle_state p c) /\
+  (forall c, ~ (is_closed_state p c /\ is_leased_state p c) /\ ~ (is_closed_state p c /\ is_idle_state p c) /\
+             ~ (is_leased_state p c /\ is_idle_state p c)).
+Proof. exact pool_exclusive_lease. Qed.
+Print Assumptions c09_exclusive_lease.
+
+(* Books.  After every history: totalClientCount = number of open connections = #leased + #idle; the idle list has
+   no duplicates, no closed and no leased connection; the Requests resource = live streams (+ external holders) >= 0. *)
+Theorem c09_books : forall k ops, k_sw k = pool_src_switches -> let p := run k ops init in
+  total p = Z.of_nat (count_open p) /\
+  total p = Z.of_nat (count_leased p) + Z.of_nat (length (idle p)) /\
+  NoDup (idle p) /\
+  (forall c, In c (idle p) -> (c < nclients p)%nat /\ closed p c = false /\ inflight p c = 0%nat) /\
+  req p = (if k_max_req k =? 0 then 0 else Z.of_nat (count_live p) + ext p) /\ 0 <= req p.
+Proof. exact pool_books. Qed.
+Print Assumptions c09_books.
+
+(* No dirty reuse.  After every history: a stream that ended in a reset (any reason) has left its connection closed
+   and out of the idle list; from every reachable state a connection enters the idle list ONLY by a Response to a
+   written request on a stream that was never reset (and, for HTTP/1, without "Connection: close"); a local reset /
+   time-out or a remote reset of a stream in flight closes the connection in the very next state. *)
+Theorem c09_no_dirty_reuse : forall k ops, k_sw k = pool_src_switches -> let p := run k ops init in
+  (forall s, (s < nstreams p)%nat -> live p s = false -> s_reset (st p s) <> 0%nat ->
+     closed p (scli p s) = true /\ ~ In (scli p s) (idle p)) /\
+  (forall o x, In x (idle (fst (step k p o))) -> ~ In x (idle p) ->
+     exists s cc, o = Response s cc /\ (s < nstreams p)%nat /\ scli p s = x /\ live p s = true /\ sent p s = true /\
+                  s_reset (st p s) = 0%nat /\ closed p x = false /\ (k_kind k = Http1 -> cc = false)) /\
+  (forall s, (s < nstreams p)%nat -> live p s = true -> closed (fst (step k p (LocalReset s))) (scli p s) = true) /\
+  (forall s, (s < nstreams p)%nat -> live p s = true -> sent p s = true ->
+     closed (fst (step k p (RemoteReset s))) (scli p s) = true).
+Proof. exact pool_no_dirty_reuse. Qed.
+Print Assumptions c09_no_dirty_reuse.
+
+(* Capacity returns.  After every history (finished, failed, refused requests in any mix): a refused NewStream
+   (overflow, connection refused, dial time-out) leaves the pool unchanged - nothing is taken and lost; and whenever
+   fewer than max_connections connections are leased (or max_connections = 0) and the Requests limit admits one more,
+   a NewStream whose dial succeeds is granted a connection. *)
+Theorem c09_capacity_returns : forall k ops, k_sw k = pool_src_switches -> let p := run k ops init in
+  (forall d send, (forall c, snd (step k p (NewStream d send)) <> RL c) -> fst (step k p (NewStream d send)) = p) /\
+  (forall send, can_create k p = true ->
+     (k_max_conn k = 0 \/ Z.of_nat (count_leased p) < k_max_conn k) ->
+     exists c, snd (step k p (NewStream DialOk send)) = RL c).
+Proof. exact pool_capacity_returns. Qed.
+Print Assumptions c09_capacity_returns.
+
+(* Destroy once.  After every history every stream has seen at most one OnDestroyStream and at most one response. *)
+Theorem c09_destroy_once : forall k ops, k_sw k = pool_src_switches -> let p := run k ops init in
+  forall s, (s < nstreams p)%nat ->
+    (s_destroys (st p s) <= 1)%nat /\ (s_recv (st p s) <= 1)%nat /\ (s_destroys (st p s) = 1%nat <-> live p s = false).
+Proof. exact pool_destroy_once. Qed.
+Print Assumptions c09_destroy_once.
+
+(* ---- non-vacuity: concrete histories reach states in which the hypotheses above are inhabited ------------- *)
+Definition c09_k_http := mkCfg Http1 2 1 pool_src_switches.
+Definition c09_k_pp := mkCfg PingPong 1 0 pool_src_switches.
+
+(* http, max_connections 2, max_requests 1: lease, refused second lease (requests limit), answer, lease again
+   (the idle connection is reused), local reset (closed), lease (fresh connection), go on *)
+Example c09_example_http :
+  let p := run c09_k_http [NewStream DialOk true; NewStream DialOk true; Response 0 false; NewStream DialOk true;
+                           LocalReset 1; NewStream DialOk true] init in
+  nclients p = 2%nat /\ nstreams p = 3%nat /\ total p = 1 /\ idle p = [] /\ closed p 0 = true /\ closed p 1 = false /\
+  inflight p 1 = 1%nat /\ s_reset (st p 1) = 1%nat /\ req p = 1 /\
+  snd (step c09_k_http p (NewStream DialOk true)) = RO /\
+  (exists c, snd (step c09_k_http (fst (step c09_k_http p (Response 2 false))) (NewStream DialOk true)) = RL c).
+Proof. vm_compute. repeat split; try reflexivity. exists 1%nat. reflexivity. Qed.
+
+(* ping-pong, max_connections 1: the idle list is entered by a clean completion only *)
+Example c09_example_pp :
+  let p := run c09_k_pp [NewStream DialOk true] init in
+  idle p = [] /\ idle (fst (step c09_k_pp p (Response 0 false))) = [0%nat] /\
+  idle (fst (step c09_k_pp p (RemoteReset 0))) = [] /\ closed (fst (step c09_k_pp p (ConnClose 0 EvReadErr))) 0 = true /\
+  (exists c, snd (step c09_k_pp (fst (step c09_k_pp p (LocalReset 0))) (NewStream DialOk true)) = RL c).
+Proof. vm_compute. repeat split; try reflexivity. exists 1%nat. reflexivity. Qed.
+
+(* ---- the three defects that were repaired, as facts about the model with the corresponding switch off ------- *)
+(* http/1 before 8134fde4d: max_requests refuses after the client was taken: connection 0 is open, not idle, not
+   leased, and with max_connections = 1 no stream can ever be leased again *)
+Example c09_defect_http_leak :
+  let k := mkCfg Http1 1 1 (mkSw false true true true) in
+  let p := run k [ExtReq true; NewStream DialOk true; ExtReq false] init in
+  total p = 1 /\ idle p = [] /\ nstreams p = 0%nat /\ closed p 0 = false /\ can_create k p = true /\
+  snd (step k p (NewStream DialOk true)) = RO.
+Proof. vm_compute. repeat split; reflexivity. Qed.
+
+(* ping-pong before bf52f0e7d: shouldCloseConn written, never read: the locally reset connection is idle and reused *)
+Example c09_defect_pingpong_reuse :
+  let k := mkCfg PingPong 0 0 (mkSw true true false true) in
+  let p := run k [NewStream DialOk true; LocalReset 0] init in
+  closed p 0 = false /\ idle p = [0%nat] /\ snd (step k p (NewStream DialOk true)) = RL 0%nat.
+Proof. vm_compute. repeat split; reflexivity. Qed.
+
+(* http/1 before 1b39875d0: a malformed response (remote reset) returns the connection to the idle list *)
+Example c09_defect_http_remote_reset_reuse :
+  let k := mkCfg Http1 0 0 (mkSw true false true true) in
+  let p := run k [NewStream DialOk true; RemoteReset 0] init in
+  closed p 0 = false /\ idle p = [0%nat] /\ snd (step k p (NewStream DialOk true)) = RL 0%nat.
+Proof. vm_compute. repeat split; reflexivity. Qed.
